@@ -1,6 +1,6 @@
 .PHONY: setup manifest clean
 setup:
-	PYTHONPATH=/repo:/verif PYTHONHASHSEED=0 PYTHONDONTWRITEBYTECODE=1 /venv/bin/python tools/setup.py
+	PYTHONPATH=$${VERIF_REPO:-/repo}:$(CURDIR) PYTHONHASHSEED=0 PYTHONDONTWRITEBYTECODE=1 /venv/bin/python tools/setup.py
 manifest:
 	/venv/bin/python tools/mkmanifest.py
 clean:
